@@ -4,7 +4,7 @@ from harness.common import Check, Err
 from harness import c34
 chk = Check("C34")
 chk.rng = random.Random(int(sys.argv[1]))
-cases = c34.build_cases(chk, int(sys.argv[2]), 2, float(sys.argv[3]))
+cases = c34.build_cases(chk, int(sys.argv[2]), int(sys.argv[4]) if len(sys.argv)>4 else 2, float(sys.argv[3]))
 cnt = collections.Counter(); planted = collections.Counter(); unc = []
 ex = {}
 for c in cases:
